@@ -101,3 +101,38 @@ func RandomGen(rng *emit.Rand, cfg Config, w Weights) Gen {
 		}
 	}
 }
+
+// Scripted replays a fixed list of operations.
+func Scripted(ops []Op) Gen {
+	return func(step int, tail, head uint64) (Op, bool) {
+		if step >= len(ops) {
+			return Op{}, false
+		}
+		return ops[step], true
+	}
+}
+
+func A(hs ...uint64) Op     { return Op{Kind: Append, Heights: hs} }
+func D(from, to uint64) Op  { return Op{Kind: Delete, From: from, To: to} }
+func R() Op                 { return Op{Kind: Restart} }
+func O() Op                 { return Op{Kind: Reopen} }
+
+// CorpusCase is a minimised past failure (or a hand-written edge case); the corpus runs first, forever.
+type CorpusCase struct {
+	Name  string
+	Batch int
+	Ops   []Op
+}
+
+// Corpus: witnesses of the defects repaired by fix: commits (known_findings.json, status fixed).
+var Corpus = []CorpusCase{
+	{"F1-delete-unflushed", 64, []Op{A(1, 2, 3, 4, 5, 6, 7, 8, 9, 10), D(1, 5), A(11, 12), O(), D(11, 13)}},
+	{"F2-wipe", 4, []Op{A(1, 2, 3, 4, 5, 6, 7, 8, 9, 10), D(1, 11), A(11, 12, 13), O()}},
+	{"F2-wipe-unflushed", 64, []Op{A(1, 2, 3, 4, 5, 6, 7, 8, 9, 10), D(1, 11), A(11, 12, 13), R()}},
+	{"F3-first-batch-gap", 64, []Op{A(5, 7), A(6), A(8)}},
+	{"F3-first-batch-unordered", 2, []Op{A(5, 3), A(4), A(6)}},
+	{"F4-height-after-head-delete", 3, []Op{A(1, 2, 3, 4, 5, 6, 7, 8, 9, 10), D(6, 11), A(6)}},
+	{"F13-wipe-island-stop", 64, []Op{A(1, 2, 3), A(7), D(1, 4), R(), A(8)}},
+	{"F14-head-delete-stale-tail-key", 2, []Op{A(5, 6), A(2, 3), A(4), D(4, 7), O()}},
+	{"F14-tail-delete-stale-head-key", 2, []Op{A(1, 2), A(4, 5), A(3), D(1, 4), O()}},
+}
